@@ -5,6 +5,7 @@ mod conn;
 mod conn_gen;
 mod frame;
 mod rng;
+mod tables;
 
 use std::io::{BufWriter, Write};
 
@@ -13,7 +14,7 @@ fn main() {
     std::panic::set_hook(Box::new(|_| {}));
     let args: Vec<String> = std::env::args().collect();
     if args.len() < 2 {
-        eprintln!("usage: harness <alloc|frame> <quick|thorough> <seed> | harness replay <mode> <file>");
+        eprintln!("usage: harness <alloc|frame|tables> <quick|thorough> <seed> | harness replay <mode> <file>");
         std::process::exit(2);
     }
     let stdout = std::io::stdout();
@@ -24,12 +25,14 @@ fn main() {
         "alloc" => alloc::generate(tier, seed, &mut out),
         "frame" => frame::generate(tier, seed, &mut out),
         "conn" => conn_gen::generate(tier, seed, &args[4.min(args.len())..], &mut out),
+        "tables" => tables::generate(tier, seed, &mut out),
         "replay" => {
             let text = std::fs::read_to_string(&args[3]).expect("trace file");
             match args[2].as_str() {
                 "alloc" => alloc::replay(&text, &mut out),
                 "frame" => frame::replay(&text, &mut out),
                 "conn" => conn::replay(&text, &mut out),
+                "tables" => tables::replay(&text, &mut out),
                 m => {
                     eprintln!("unknown replay mode {m}");
                     std::process::exit(2);
